@@ -222,6 +222,26 @@ Definition nn_arg_nests (a : nn_arg) : list nnest :=
 Definition cn_arg_nests (a : cn_arg) : list cnest :=
   match a with CNLegacy l => map cn_from_tuple l | CNObj _ ns => ns end.
 
+(* Names of the nests.  Nests.__init__ gives an unnamed nest object the name nest_<position>
+   (1-based) and keeps a name that is already there; the nest objects are mutable, so an object
+   that was at position k of an earlier Nests(...) specification carries nest_<k> afterwards.
+   Two nests of one specification can therefore bear the same name without the user naming
+   anything.  No builder of models/*.py reads the names: the builders below take the nests
+   without them ([NNObjNamed] / [CNObjNamed] forget the names). *)
+Definition nest_name (counter : Z) (given : option string) : string :=
+  match given with Some s => s | None => ("nest_" ++ string_of_Z counter)%string end.
+Fixpoint assign_names_from (k : Z) (l : list (option string)) : list string :=
+  match l with [] => [] | g :: r => nest_name k g :: assign_names_from (k + 1) r end.
+Definition assign_names (l : list (option string)) : list string := assign_names_from 1 l.
+(* the name held by an object created with [given] that was placed at position [prev] of an
+   earlier specification (None: never used before) *)
+Definition carried_name (given : option string) (prev : option Z) : option string :=
+  match prev with Some k => Some (nest_name k given) | None => given end.
+Definition NNObjNamed (choice_set : list Z) (l : list (option string * nnest)) : nn_arg :=
+  NNObj choice_set (map snd l).
+Definition CNObjNamed (choice_set : list Z) (l : list (option string * cnest)) : cn_arg :=
+  CNObj choice_set (map snd l).
+
 (* the nested-logit structure induced by cross-nested nests (each nest keeps its parameter and
    the alternatives listed in its dict_of_alpha) *)
 Definition cn_induced_nest (m : cnest) : nnest := mkNN (cn_param m) (keys (cn_alpha m)).
